@@ -103,7 +103,12 @@ def foreignAttrPool : List Toks :=
    ["cfg_attr", "(", "test", ",", "derive", "(", "Debug", ")", ")"], ["serde", "(", "rename", "=", "\"x\"", ")"],
    ["my", "::", "attr"], ["must_use"], ["non_exhaustive"], ["derive", "(", "Clone", ")"],
    ["doc", "(", "hidden", ")"], ["cfg", "(", "all", "(", ")", ")"], ["rustfmt", "::", "skip"],
-   ["deprecated", "(", "note", "=", "\"a b\"", ")"]]
+   ["deprecated", "(", "note", "=", "\"a b\"", ")"],
+   -- foreign *path* attributes whose last segment is spelled like a helper attribute
+   ["m", "::", "default", "(", "Clone", ")"], ["x", "::", "debug"], ["y", "::", "hash"],
+   ["a", "::", "derive_ex", "(", "Clone", ")"], ["::", "ord"], ["z", "::", "partial_eq", "(", "ignore", ")"],
+   ["q", "::", "eq"], ["q", "::", "partial_ord"], ["q", "::", "ord", "(", "reverse", ")"], ["::", "derive_ex", "(", "Copy", ")"],
+   ["debug", "::", "x"], ["default", "::", "y", "(", "1", ")"]]
 
 def visPool : List (Nat × Toks) :=
   [(6, []), (2, ["pub"]), (1, ["pub", "(", "crate", ")"]), (1, ["pub", "(", "super", ")"]),
